@@ -60,6 +60,16 @@ TERN_S = ["replace(x, y, z)", "tokenize(x, y)", "tokenize(x, y, true)", "tokeniz
 CODE_S = ["chr(c)", "sv.put(0, c)", "sv.concat(c)", "bv.put(0, c)", "bv.concat(c)", "raw(1, c)", "sv.insert(0, c)", "bv.insert(0, c)"]
 
 
+def chained(exprs):
+    """an in-place method applied to the value a built-in returned must work on that value, not on the argument it came from:
+    the statements may be refused (result is not a string / bytes array); the arguments are compared afterwards"""
+    out = []
+    for e in exprs:
+        out.append(op_run('begin zq = (%s).concat(33); exception when others then zq = null; end;' % e))
+        out.append(op_run('begin zq = (%s).put(0, 33); exception when others then zq = null; end;' % e))
+    return out
+
+
 def gen_factory(tier):
     thorough = tier == "thorough"
 
@@ -72,6 +82,7 @@ def gen_factory(tier):
                 ops.append(op_run(guarded(e, "r%d" % k)))
             ops.append(op_run('begin r90 = num(x); exception when out_of_range then r90 = "E:OOR"; end;'))
             ops.append(op_run('begin r91 = int(x); exception when out_of_range then r91 = "E:OOR"; end;'))
+            ops += chained(UNARY_S)
             ops.append(op_dump())
             yield Case("u%d" % n, ops, {"kind": "unary", "x": x.hex()})
             n += 1
@@ -82,6 +93,7 @@ def gen_factory(tier):
                     ops = [op_ctx(), op_setvar("X", sspec(x)), op_setvar("Y", sspec(y)), op_setvar("P", ispec(p))]
                     for k, e in enumerate(POS_S):
                         ops.append(op_run(guarded(e, "r%d" % k)))
+                    ops += chained(POS_S)
                     ops.append(op_dump())
                     yield Case("p%d" % n, ops, {"kind": "pos", "x": x.hex(), "y": y.hex(), "p": p})
                     n += 1
@@ -106,6 +118,7 @@ def gen_factory(tier):
                     ops = [op_ctx(), op_setvar("X", sspec(x)), op_setvar("Y", sspec(y)), op_setvar("Z", sspec(z))]
                     for k, e in enumerate(TERN_S):
                         ops.append(op_run(guarded(e, "r%d" % k)))
+                    ops += chained(TERN_S)
                     ops.append(op_dump())
                     yield Case("t%d" % n, ops, {"kind": "tern", "x": x.hex(), "y": y.hex(), "z": z.hex()})
                     n += 1
